@@ -750,8 +750,24 @@ def _corr_slip_one(ctx, rng, ref, caseseed, it0, it, dyadic):
     s1c = _inbox(s1, np)              # (the representation handed to the cutoff= paths)
     natural = natural and s1c is not None
     if natural:
+        # (system_1 is handed over in its in-cell representation: expectation and nearest-image decisions for THAT one)
+        posc = cm.frs(s0.atoms.pos) + ' ' + cm.frs(s1c.atoms.pos)
+        if sc['stable']:
+            dec_slip_c = None
+
+            def dec_rows_c(rows_):
+                return None
+        else:
+            Ic_, _, _, dec_dd_c = _expect_pairs(s0, s1c, (V_, pb_), nl0, np)
+            dsc_ = np.ones(n, dtype=bool)
+            np.logical_and.at(dsc_, Ic_, dec_dd_c)
+            dec_slip_c = dsc_[sel]
+
+            def dec_rows_c(rows_):
+                return dec_dd_c[rows_]
+        outc = ctx.driver.ask(f'slip {_cell(s0)} {n} {posc} {nlt} {_sel_tokens(sel)}')
         _cmp(ctx, 'slip_vector:cutoff', 'slip_vector(cutoff=)', _guard(lambda: am.defect.slip_vector(s0, s1c, cutoff=cut)[sel]),
-             out, exact, info, decided=dec_slip)
+             outc, exact, info, decided=dec_slip_c)
     # differential displacement -------------------------------------------------------------
     offs = np.concatenate([[0], np.cumsum([len(nl0[i]) for i in range(n)])])
     rows = np.concatenate([np.arange(offs[i], offs[i + 1]) for i in sel]).astype(int)
@@ -770,8 +786,9 @@ def _corr_slip_one(ctx, rng, ref, caseseed, it0, it, dyadic):
             ctx.disagree('ddvectors:cutoff', 'DifferentialDisplacement(cutoff=, reference=0): number of pairs differs from '
                          'system0\'s neighbour list', info)
         else:
+            outc = ctx.driver.ask(f'dd {_cell(s0)} {_cell(s1c)} {n} {posc} {nlt} {_sel_tokens(sel)}')
             _cmp(ctx, 'ddvectors:cutoff', 'DifferentialDisplacement(cutoff=, reference=0).ddvectors',
-                 ddv if isinstance(ddv, _Raised) else ddv[rows], out, exact, info, decided=dec_rows(rows))
+                 ddv if isinstance(ddv, _Raised) else ddv[rows], outc, exact, info, decided=dec_rows_c(rows))
     if natural and it % 3 == 0:      # (lists are only built for systems whose atoms are inside the box)
         nl1 = s1c.neighborlist(cutoff=cut)
         offs1 = np.concatenate([[0], np.cumsum([len(nl1[i]) for i in range(n)])])
@@ -1218,19 +1235,55 @@ def _search_slip_one(ctx, rng, ref, caseseed, it0, it, dyadic):
                  f'imposed displacement taken through the periodic boundaries is {exp_disp[max(k, 0)].tolist()} ({name} {size}, '
                  f'box {np.round(V, 6).tolist()}, pbc {list(pb)}, rigid slip {sc["uA"].tolist()} / {sc["uB"].tolist()}'
                  f'{", atoms moved by box vectors" if wrapped else ""})', k)
+    if it % 2 == 0:
+        # options and refusals of displacement(); fresh results
+        d = _guard(lambda: am.displacement(s0, s1, box_reference=None))
+        if isinstance(d, _Raised) or d.shape != (n, 3) or (d != s1.atoms.pos - s0.atoms.pos).any():
+            fail('displacement:none', f'displacement(box_reference=None) is not the plain difference of the positions: '
+                 f'{d.text if isinstance(d, _Raised) else "values differ"}')
+        for bad_ in ('Final', 'both', '', 0, False, 'none'):
+            d = _guard(lambda: am.displacement(s0, s1, box_reference=bad_))
+            if not isinstance(d, _Raised) or not d.text.startswith('ValueError'):
+                fail('displacement:refusal', f'displacement(box_reference={bad_!r}): expected the documented ValueError, got '
+                     f'{d.text if isinstance(d, _Raised) else "values"}', box_reference=repr(bad_))
+        short = am.System(atoms=am.Atoms(atype=1, pos=s1.atoms.pos[:-1].copy()), box=s1.box, pbc=sc['pbc'])
+        for nm_, f_, cls_ in (('displacement', lambda: am.displacement(s0, short), 'ValueError'),
+                              ('slip_vector', lambda: am.defect.slip_vector(s0, short, neighbors=nl0), 'ValueError'),
+                              ('DifferentialDisplacement', lambda: am.defect.DifferentialDisplacement(s0, short, neighbors=nl0, reference=0), 'AssertionError')):
+            d = _guard(f_)
+            if not isinstance(d, _Raised) or not d.text.startswith(cls_):
+                fail('natoms:refusal', f'{nm_} with systems of {n} and {n - 1} atoms: expected {cls_}, got '
+                     f'{d.text if isinstance(d, _Raised) else "a result"}')
+        for nm_, f_ in (('displacement', lambda: am.displacement(s0, s1)), ('slip_vector', lambda: am.defect.slip_vector(s0, s1, neighbors=nl0))):
+            a1 = _guard(f_)
+            if isinstance(a1, _Raised):
+                continue
+            keep_ = a1.copy()
+            a1[:] = 7.25
+            a2 = _guard(f_)
+            if isinstance(a2, _Raised) or np.shares_memory(a1, a2) or not np.array_equal(a2, keep_, equal_nan=True):
+                fail('result-not-fresh', f'{nm_}: overwriting a returned array changes what the next call returns')
     # slip vector -----------------------------------------------------------------------------
     s1c = _inbox(s1, np)              # (the representation handed to the cutoff= paths: atoms inside the cell)
     natural = natural and s1c is not None
+    dec_slip_c, dec_dd_c, exp_slip_c, exp_dd_c = dec_slip, dec_dd, exp_slip, exp_dd
+    if natural and not sc['stable'] and s1c is not s1:
+        # (the in-cell representation handed to the cutoff= paths: its own nearest-image decisions)
+        Ic_, _, exp_dd_c, dec_dd_c = _expect_pairs(s0, s1c, (V, pb), nl0, np)
+        exp_slip_c = np.zeros((n, 3))
+        np.subtract.at(exp_slip_c, Ic_, exp_dd_c)
+        dec_slip_c = np.ones(n, dtype=bool)
+        np.logical_and.at(dec_slip_c, Ic_, dec_dd_c)
     for how, kw in (('neighbors=', {'neighbors': nl0}),) + ((('cutoff=', {'cutoff': cut}),) if natural else ()):
         sv = _guard(lambda: am.defect.slip_vector(s0, s1 if 'neighbors' in kw else s1c, **kw))
         if isinstance(sv, _Raised):
             fail('slip_vector:raises', f'slip_vector({how}) raised {sv.text} (coordination {int(coordn.min())}..{int(coordn.max())})')
             continue
-        k = bad(sv, exp_slip, tol * 20, dec_slip)
+        k = bad(sv, exp_slip if 'neighbors' in kw else exp_slip_c, tol * 20, dec_slip if 'neighbors' in kw else dec_slip_c)
         if k is not None:
             fail('slip_vector', f'slip_vector({how}) of atom {k} is {sv[k].tolist() if k >= 0 else sv.shape}, expected '
                  f'{int(across[max(k, 0)])} neighbours across x (own - other half displacement {rel[max(k, 0)].tolist()}) = '
-                 f'{exp_slip[max(k, 0)].tolist()} ({int(coordn[max(k, 0)])} neighbours in the list)', k)
+                 f'{(exp_slip if "neighbors" in kw else exp_slip_c)[max(k, 0)].tolist()} ({int(coordn[max(k, 0)])} neighbours in the list)', k)
     # differential displacement ---------------------------------------------------------------
     for how, kw in (('neighbors=', {'neighbors': nl0}),) + ((('cutoff=', {'cutoff': cut}),) if natural else ()):
         dd = _guard(lambda: am.defect.DifferentialDisplacement(s0, s1 if 'neighbors' in kw else s1c, reference=0, **kw).ddvectors)
@@ -1241,11 +1294,11 @@ def _search_slip_one(ctx, rng, ref, caseseed, it0, it, dyadic):
             fail('ddvectors', f'DifferentialDisplacement({how}, reference=0): {len(dd)} pair vectors, the reference '
                  f'neighbour list has {len(exp_dd)} pairs')
             continue
-        k = bad(dd, exp_dd, tol * 2, dec_dd)
+        k = bad(dd, exp_dd if 'neighbors' in kw else exp_dd_c, tol * 2, dec_dd if 'neighbors' in kw else dec_dd_c)
         if k is not None:
             fail('ddvectors', f'DifferentialDisplacement({how}, reference=0).ddvectors[{k}] (pair {int(I[k])}-{int(J[k])}, atom '
                  f'{int(I[k])} has {int(coordn[I[k]])} neighbour(s)) = {dd[k].tolist()}, difference of the imposed displacements '
-                 f'{exp_dd[k].tolist()}', pair=k)
+                 f'{(exp_dd if "neighbors" in kw else exp_dd_c)[k].tolist()}', pair=k)
     if it % 6 == 0 and sc['stable']:
         _search_ddplot(ctx, s0, s1, nl0, exp_dd, tol, base, np, am)
     if it % 3 == 2:
@@ -1298,10 +1351,17 @@ def _search_slip_one(ctx, rng, ref, caseseed, it0, it, dyadic):
     below = max(v for v in lv if v < sc['mid'])
     adj = (np.abs(s0.atoms.pos[:, ax] - above) < 1e-6) | (np.abs(s0.atoms.pos[:, ax] - below) < 1e-6)
     exp_coord = _levels(s0.atoms.pos[adj, mdir], 1e-7)
+    form = it % 4        # (m, n, planepos as float lists / integer lists and a tuple / arrays (one read-only) / float32, numpy scalars)
+    fm, fn, fp = (m, nn, planepos) if form == 0 else ([int(x) for x in m], tuple(int(x) for x in nn), tuple(planepos)) if form == 1 \
+        else (np.array(m), np.array(nn, dtype='int64'), np.array(planepos)) if form == 2 \
+        else (np.array(m, dtype='float32'), [np.float64(x) for x in nn], [np.float64(x) for x in planepos])
+    if form == 2:
+        fp.flags.writeable = False
     try:
-        coord, dis = am.defect.disregistry(s0, s1, m=m, n=nn, planepos=planepos)
+        coord, dis = am.defect.disregistry(s0, s1, m=fm, n=fn, planepos=fp)
     except Exception as e:   # noqa
-        fail('disregistry', f'disregistry raised {type(e).__name__}: {e} for a plane position between two atomic planes',
+        fail('disregistry', f'disregistry raised {type(e).__name__}: {e} for a plane position between two atomic planes '
+             f'(m, n, planepos given as {type(fm).__name__}/{type(fn).__name__}/{type(fp).__name__})',
              m=m, n=nn, planepos=planepos)
         coord = None
     if coord is not None:
@@ -1428,6 +1488,63 @@ def _search_slip_one(ctx, rng, ref, caseseed, it0, it, dyadic):
             except Exception as e:   # noqa
                 fail('translation:disregistry', f'disregistry raised {type(e).__name__}: {e} after a joint translation by {tt.tolist()}',
                      translation=tt.tolist())
+    # history on the SAME objects: the current system is edited in place between two calls (no result may be remembered by
+    # object identity); the second call is compared with the call on freshly built systems -------------------------------
+    if it % 2 == 1 and sc['stable']:
+        du2 = np.where(side[:, None], 0.5 * sc['uA'] + 0.125 * (sc['uA'] != 0), sc['uB'] * 0.5)
+        s1m = _system(s0, s1.atoms.pos.copy(), pbc=sc['pbc'])
+        fresh2 = _system(s0, s0.atoms.pos + du2, pbc=sc['pbc'])
+        calls = [('displacement', lambda a_, b_: am.displacement(a_, b_)),
+                 ('slip_vector', lambda a_, b_: am.defect.slip_vector(a_, b_, neighbors=nl0)),
+                 ('DifferentialDisplacement', lambda a_, b_: am.defect.DifferentialDisplacement(a_, b_, neighbors=nl0, reference=0).ddvectors)]
+        if coord is not None:
+            calls.append(('disregistry', lambda a_, b_: np.hstack([x_.reshape(len(x_), -1) for x_ in
+                                                                 am.defect.disregistry(a_, b_, m=m, n=nn, planepos=planepos)])))
+        first = [_guard(lambda: f_(s0, s1m)) for _, f_ in calls]
+        s1m.atoms.pos[:] = fresh2.atoms.pos
+        for (nm_, f_), r1_ in zip(calls, first):
+            r2_ = _guard(lambda: f_(s0, s1m))
+            rf_ = _guard(lambda: f_(s0, fresh2))
+            if isinstance(r2_, _Raised) or isinstance(rf_, _Raised):
+                if isinstance(r2_, _Raised) != isinstance(rf_, _Raised):
+                    fail('history:' + nm_, f'{nm_} after an in-place edit of system_1: {r2_.text if isinstance(r2_, _Raised) else "values"}, on '
+                         f'fresh systems {rf_.text if isinstance(rf_, _Raised) else "values"}')
+            elif r2_.shape != rf_.shape or not np.array_equal(r2_, rf_):
+                fail('history:' + nm_, f'{nm_}(system_0, system_1) called again after system_1.atoms.pos was edited in place returns '
+                     f'{"the values of the FIRST call" if not isinstance(r1_, _Raised) and r1_.shape == r2_.shape and np.array_equal(r1_, r2_) else "other values"}'
+                     f', not those of the current positions (max difference {np.abs(r2_ - rf_).max() if r2_.shape == rf_.shape else "shape"})')
+    # the same configuration in a generically ROTATED frame (box, positions, m, n, planepos rotated together; the normal also
+    # reversed: the profile is that of the half on the +n side minus the other) -------------------------------------------
+    _, Rm = _rand_axes(random.Random(caseseed * 3 + it), np)
+    if np.abs(Rm - np.identity(3)).max() < 1e-9:
+        Rm = np.array([[0.0, -1.0, 0.0], [0.6, 0.0, 0.8], [-0.8, 0.0, 0.6]])
+    s0r = _system(s0, s0.atoms.pos @ Rm.T, vects=s0.box.vects @ Rm.T, origin=Rm @ s0.box.origin, pbc=sc['pbc'])
+    s1r = _system(s0r, s1.atoms.pos @ Rm.T, pbc=sc['pbc'])
+    ctx.stats.case('oracle:rotated-frame', canon + (tuple(Rm.ravel()),))
+    resr = _guard(lambda: (am.displacement(s0r, s1r), am.defect.slip_vector(s0r, s1r, neighbors=nl0),
+                           am.defect.DifferentialDisplacement(s0r, s1r, neighbors=nl0, reference=0).ddvectors))
+    if isinstance(resr, _Raised):
+        fail('rotated:raises', f'{resr.text} with both systems rotated by {Rm.tolist()}', rotation=Rm.tolist())
+    else:
+        for nm, x, y in zip(('displacement', 'slip_vector', 'ddvectors'), res0, resr):
+            mk = masks[nm]
+            if x.shape != y.shape or (mk.any() and np.abs(y - x @ Rm.T)[mk].max() > 40e-9 * L):
+                fail('rotated:' + nm, f'{nm} of the rotated pair of systems is not the rotated {nm} (rotation {Rm.tolist()})',
+                     rotation=Rm.tolist())
+    if coord is not None and dec_disp[adj].all():
+        sgn = rng.choice([1.0, -1.0])
+        mr, nr = (Rm @ np.array(m)).tolist(), (sgn * (Rm @ np.array(nn))).tolist()
+        ppr = (Rm @ np.array(planepos)).tolist()
+        try:
+            c2, d2 = am.defect.disregistry(s0r, s1r, m=mr, n=nr, planepos=ppr)
+            if not _same_profile(coord, sgn * dis @ Rm.T, c2, d2, 4e-9 * L, np):
+                fail('rotated:disregistry', f'disregistry in a rotated frame (m = {mr}, n = {nr}{", normal reversed" if sgn < 0 else ""}, planepos = {ppr}) '
+                     f'is {d2[0].tolist() if len(d2) else None} at coordinate {c2[0] if len(c2) else None}; expected the '
+                     f'{"negative of the " if sgn < 0 else ""}rotated slip {(sgn * dis[0] @ Rm.T).tolist()}', rotation=Rm.tolist(), m=mr, n=nr,
+                     planepos=ppr)
+        except Exception as e:   # noqa
+            fail('rotated:disregistry', f'disregistry raised {type(e).__name__}: {e} in a rotated frame (m = {mr}, n = {nr})',
+                 rotation=Rm.tolist(), m=mr, n=nr, planepos=ppr)
     # power-of-two length scales: every result scales with the lengths (no absolute length hidden in the code) ----------
     kexp = rng.choice([-300, -100, -16, -8, 8, 16, 100, 300])
     fsc = 2.0 ** kexp
@@ -1521,7 +1638,24 @@ def _search_ddplot(ctx, s0, s1, nl0, exp_dd, tol, base, np, am):
     matplotlib.use('Agg')
     import matplotlib.pyplot as plt
     big = float(np.abs(s0.box.vects).sum() + np.abs(s0.atoms.pos).max() + 10)
-    for kw in ({}, {'atom_color': 'b'}):
+    # (returned vectors are expressed in the plotting frame x, y, x x y: every choice of plotting axes must give the
+    #  same vectors, rotated)
+    r2 = math.sqrt(0.5)
+    frames = [('x', 'y'), ('y', 'z'), ('z', 'x'), ([r2, r2, 0.0], [-r2, r2, 0.0]), ([0.6, 0.0, 0.8], [0.0, 1.0, 0.0]),
+              ([0.0, 0.0, 2.0], [3.0, 0.0, 0.0])]
+    unit = {'x': [1.0, 0.0, 0.0], 'y': [0.0, 1.0, 0.0], 'z': [0.0, 0.0, 1.0]}
+    pick = random.Random(base['caseseed'] + 11)
+    exp_dd0 = exp_dd
+    for kw in ({}, {'atom_color': 'b'}, {'frame': pick.choice(frames[1:])}, {'frame': pick.choice(frames[1:]), 'display_final_pos': True}):
+        kw = dict(kw)
+        fr = kw.pop('frame', None)
+        exp_dd = exp_dd0
+        if fr is not None:
+            kw['plotxaxis'], kw['plotyaxis'] = fr
+            ex_ = np.array(unit.get(fr[0], fr[0]) if isinstance(fr[0], str) else fr[0], dtype=float)
+            ey_ = np.array(unit.get(fr[1], fr[1]) if isinstance(fr[1], str) else fr[1], dtype=float)
+            ex_, ey_ = ex_ / np.linalg.norm(ex_), ey_ / np.linalg.norm(ey_)
+            exp_dd = exp_dd0 @ np.array([ex_, ey_, np.cross(ex_, ey_)]).T
         try:
             res = am.defect.differential_displacement(s0, s1, [1.0, 0.0, 0.0], neighbors=nl0, return_data=True,
                                                       xlim=(-big, big), ylim=(-big, big), zlim=(-big, big), **kw)
@@ -1539,10 +1673,10 @@ def _search_ddplot(ctx, s0, s1, nl0, exp_dd, tol, base, np, am):
             ctx.violate('differential_displacement', f'differential_displacement returns {len(v)} vectors for {len(exp_dd)} pairs',
                         dict(base, call=str(kw)))
         else:
-            k = _bad(v, exp_dd, tol * 2)
+            k = _bad(v, exp_dd, tol * 2 + (1e-12 if fr is not None else 0.0))
             if k is not None:
-                ctx.violate('differential_displacement', f'differential_displacement vector {k} = {v[k].tolist()}, difference of '
-                            f'imposed displacements {exp_dd[k].tolist()}', dict(base, call=str(kw), pair=k))
+                ctx.violate('differential_displacement', f'differential_displacement({kw}) vector {k} = {v[k].tolist()}, difference of '
+                            f'imposed displacements (in the plotting frame) {exp_dd[k].tolist()}', dict(base, call=str(kw), pair=k))
 
 
 def _search_homog(ctx, caseseed, it, reps=4):
@@ -1702,6 +1836,25 @@ def _search_homog_one(ctx, rng, ref, nl0, caseseed, it0, it):
                 fail('nye_tensor.Nye', 'nye_tensor Nye tensor is not zero for a homogeneous deformation')
     if G0 is None:
         return
+    # power-of-two length scales: G (dimensionless) unchanged, the Nye tensor scales with 1 / length -------------------
+    kexp = rng.choice([-300, -100, -20, 20, 100, 300])
+    fsc = 2.0 ** kexp
+    try:
+        s0s = _system(s0, s0.atoms.pos * fsc, vects=s0.box.vects * fsc, origin=s0.box.origin * fsc)
+        s1s = _system(s1, s1.atoms.pos * fsc, vects=s1.box.vects * fsc, origin=s1.box.origin * fsc)
+    except Exception:   # noqa  (building boxes at this scale is not this property's subject)
+        s0s = None
+    if s0s is not None:
+        import warnings
+        with warnings.catch_warnings():
+            warnings.simplefilter('ignore')
+            gs = _guard(lambda: am.defect.Strain(s1s, neighbors=nl1, basesystem=s0s, baseneighbors=nl0).G)
+        if isinstance(gs, _Raised):
+            fail('scale:Strain', f'Strain raised {gs.text} after all lengths were multiplied by 2**{kexp}', scale_exponent=kexp)
+        elif not np.isfinite(gs).all() or np.abs(gs - G0).max() > 1e-11:
+            k = int(np.abs(gs - G0).reshape(n, -1).max(1).argmax())
+            fail('scale:Strain.G', f'G[{k}] = {gs[k].tolist()} after all lengths (both systems) were multiplied by 2**{kexp}; '
+                 f'unscaled: {G0[k].tolist()}', k, scale_exponent=kexp)
     # invariance: joint translation, consistent renumbering --------------------------------------
     t = np.array([rng.randint(-40, 40) / 8 for _ in range(3)])
     if it % 2 == 0:
@@ -2620,8 +2773,27 @@ def _shells(ctx, caseseed, it, tie):
         if isinstance(G, _Raised):
             ctx.disagree('shells:raises', f'Strain raised {G.text}', base)
             return
-        _cmp(ctx, 'Strain.G:shells', f'Strain.G (reference {c["kp"]} shells, current list {c["kq"]} shells, theta_max {theta})',
-             G[sel], out, False, base, atol=2e-9)
+        okG = _cmp(ctx, 'Strain.G:shells', f'Strain.G (reference {c["kp"]} shells, current list {c["kq"]} shells, theta_max {theta})',
+                   G[sel], out, False, base, atol=2e-9)
+        if okG and it % 2 == 0:
+            # the older pure-python pipeline has its own pairing loop: its strain against the model's (pairing + normal
+            # equations + strain formula) on the same inputs
+            with warnings.catch_warnings():
+                warnings.simplefilter('ignore')
+                old = _guard(lambda: am.defect.nye_tensor(s1, [p.copy() for p in pv], neighbors=nl1, theta_max=theta))
+            if isinstance(old, _Raised):
+                ctx.disagree('shells:nye_tensor:raises', f'nye_tensor raised {old.text}', base)
+                return
+            toks = out.split()
+            outs = ctx.driver.ask_many(['derive ' + ' '.join(toks[9 * k_:9 * k_ + 9]) for k_ in range(len(sel))])
+            for i_, o_ in zip(sel, outs):
+                mm = _floats(o_)
+                impl = np.concatenate([old['strain'][i_].ravel(), [old['strain_invariant_1'][i_], old['strain_invariant_2'][i_],
+                                                                   old['strain_invariant_3'][i_], old['angular_velocity'][i_] ** 2]])
+                if _maxdiff(impl, mm[:9] + mm[18:22]) > 2e-9:
+                    ctx.disagree('nye_tensor:shells', f'nye_tensor(theta_max={theta}) strain / invariants of atom {i_} differ from the model '
+                                 f'(reference {c["kp"]} shells, current list {c["kq"]} shells)', dict(base, atom=int(i_)))
+                    break
         return
     if isinstance(G, _Raised):
         ctx.violate('shells:raises', f'Strain (reference {c["kp"]} shells, current list {c["kq"]} shells, theta_max={theta}) '
@@ -2653,7 +2825,45 @@ def _shells(ctx, caseseed, it, tie):
                     f'{c["kq"]} shell(s) ({len(nl1[i])} vectors, cutoff {c["cutq"]:.4f}), theta_max = {theta}: up to {comp} current '
                     f'vectors compete for one reference vector; F = {F}', dict(base, atom=i))
         return
+    if it % 2 == 1:
+        # all lengths times a power of two: the pairing (angles, ratios of lengths) and hence G must not change
+        kexp = rng.choice([-300, -100, -20, 20, 100, 300])
+        fsc = 2.0 ** kexp
+        s0s = _guard(lambda: _system(s0, s0.atoms.pos * fsc, vects=s0.box.vects * fsc, origin=s0.box.origin * fsc))
+        s1s = _guard(lambda: _system(s1, s1.atoms.pos * fsc, vects=s1.box.vects * fsc, origin=s1.box.origin * fsc))
+        if not isinstance(s0s, _Raised) and not isinstance(s1s, _Raised):
+            with warnings.catch_warnings():
+                warnings.simplefilter('ignore')
+                gs = _guard(lambda: am.defect.Strain(s1s, neighbors=nl1, basesystem=s0s, baseneighbors=nl0, theta_max=theta).G)
+                g1 = _guard(lambda: am.defect.Strain(s1, neighbors=nl1, basesystem=s0, baseneighbors=nl0, theta_max=theta).G)
+            if isinstance(gs, _Raised) or isinstance(g1, _Raised):
+                ctx.violate('shells:scale:raises', f'Strain raised {(gs if isinstance(gs, _Raised) else g1).text} (lengths x 2**{kexp})',
+                            dict(base, scale_exponent=kexp))
+            elif np.abs(gs - g1)[claimed].max() > 1e-11:
+                i = int(np.where(claimed[:, None, None], np.abs(gs - g1), 0).reshape(n, -1).max(1).argmax())
+                ctx.violate('shells:scale', f'G[{i}] changes by {np.abs(gs - g1)[i].max():.3e} when all lengths of both systems are multiplied '
+                            f'by 2**{kexp} (reference {c["kp"]} shells, current list {c["kq"]} shells, theta_max = {theta})',
+                            dict(base, atom=i, scale_exponent=kexp))
     if claimed.all():
+        # the older function (own pairing loop) on the same inputs
+        with warnings.catch_warnings():
+            warnings.simplefilter('ignore')
+            parg = pv[0].copy() if supply == 'shared' else [p.copy() for p in pv]
+            old = _guard(lambda: am.defect.nye_tensor(s1, parg, neighbors=nl1, theta_max=theta))
+        if isinstance(old, _Raised):
+            ctx.violate('shells:nye_tensor:raises', f'nye_tensor(theta_max={theta}) raised {old.text}', base)
+        else:
+            for nm, attr in (('strain', 'strain'), ('strain_invariant_1', 'invariant1'), ('strain_invariant_2', 'invariant2'),
+                             ('strain_invariant_3', 'invariant3'), ('angular_velocity', 'angularvelocity'), ('Nye_tensor', 'nye')):
+                tolv = 1e-8 / c['a'] if attr == 'nye' else 2e-9
+                val = np.asarray(old[nm], dtype=float)
+                dv = np.abs(val - exp[attr]).reshape(n, -1).max(1)
+                if not np.isfinite(val).all() or dv.max() > tolv:
+                    i = int(dv.argmax())
+                    ctx.violate('shells:nye_tensor.' + nm, f'nye_tensor(theta_max={theta})[{nm!r}][{i}] = {val[i].tolist()}, from F^-T: '
+                                f'{np.asarray(exp[attr]).tolist()} ({c["name"]} {c["size"]}, reference {c["kp"]} shells ({supply}), current list '
+                                f'{c["kq"]} shells, up to {comp} current vectors compete for one reference vector; F = {F})', dict(base, atom=i))
+                    break
         for attr in ('strain', 'rotation', 'invariant1', 'invariant2', 'invariant3', 'nye'):
             val = _guard(lambda: np.array(getattr(st, attr)))
             if isinstance(val, _Raised):
